@@ -42,7 +42,7 @@ class QWorld:
 	def __init__(self, ctx, rng, tag):
 		from vf import world as W
 		self.rng = rng
-		self.w = W.sequence_world(rng, ng=rng.randint(3, 9), nq=rng.randint(4, 9), names='plain')
+		self.w = W.sequence_world(rng, ng=rng.randint(3, 9), nq=rng.randint(3, 6), names='plain')
 		self.dir = ctx.workdir / tag
 		self.dir.mkdir()
 		self.db = self.w.write_db(self.dir / 'db')
@@ -161,7 +161,7 @@ def run_batch(sh, ctx):
 		for qi in range(len(w.queries)):
 			f = next(x for x in qw.files if x['qi'] == qi)
 			for fmt in ('csv', 'json', 'archive'):
-				for strict in (False, True):
+				for strict in ((False, True) if fmt == 'archive' or qi % 3 == 0 else (False,)):
 					out = qw.dir / f'alone_{qi}.{fmt}'
 					code, so, se, exc = run_cmd(['-d', qw.db, 'query', '-f', fmt, '-o', out, '--no-progress'] + (['--strict'] if strict else []) + [f['path']])
 					ctx.count('alone_runs')
